@@ -135,6 +135,13 @@ def main(argv):
                          n=per, seed=derive_seed(base_seed, pid, c.name, s), deadline=deadline,
                          shrink_budget_s=shrink_budget, known_sigs=known_sigs)
                 )
+    if tier == "thorough" and not os.environ.get("VERIF_NO_FUZZ"):
+        for c in comps:
+            if c.fuzz_runs and c.strategy is not None:
+                for sh in range(8):
+                    jobs.append(dict(pid=pid, kind="fuzz", component=c.name + "@atheris", tier=tier, shard=sh, nshards=8,
+                                     n=max(50, int(c.fuzz_runs * scale)), seed=derive_seed(base_seed, pid, c.name, "fuzz", sh) % 100000 + 1,
+                                     deadline=deadline, known_sigs=known_sigs))
     # longest jobs first is unknown; just interleave components so shards of a slow one spread out
     pool = Pool(min(NCPU, len(jobs)))
     outs = pool.run(jobs)
